@@ -123,6 +123,13 @@ def tasks(tier):
         cfg = dict(M=4, alphabet=["ok", "x:T", "r:T"], attempt_hooks="call", max_unknown=None,
                    faults=[("astart", idx, "RuntimeError")], strat_menu=[1])
         out.append({"family": "attempt-number-hook-fault", "cfg": cfg, "entry": e, "bound": 0})
+    # an abort predicate is supplied (and may never fire) next to delays well above one second:
+    # the sleeper is still called once, with the delay itself
+    for tb, hd, e in itertools.product(TABLES[:2], [None, "call"], Q4 + ["Policy.call", "RetryPolicy.execute", "Retry.context"]):
+        cfg = dict(M=3, strat=tb, alphabet=["ok", "x:T", "r:T"], strat_menu=[20, 9, 1], strat_free=True,
+                   max_unknown=None, deadline=None, abort=True, handler=hd, handler_menu=["SLEEP"],
+                   before_sleep="call", sleeper="call")
+        out.append({"family": "delay-abort-predicate", "cfg": cfg, "entry": e, "bound": 1})
     # time passes inside the sleep handler; an attempt timeout is configured
     for tb, at, e in itertools.product(TABLES[:2] + TABLES[4:], [None, 2], Q4):
         cfg = dict(M=3, strat=tb, deadline=6, alphabet=["ok", "x:T", "x:R+ra", "r:T"],
